@@ -96,6 +96,12 @@ def run(ctx):
     # ---- A2
     _have = {f['name'] for f in F.values() if f.get('cls') == 'Teakra::Interpreter'}
     _gone = sorted(x for x in T['plain_writers'] if x not in _have)
+    plain = set(T['plain_writers'])
+    for x in list(_gone):
+        # a shared helper that was inlined into the handlers that used it: those handlers are the plain writers now
+        if x in T.get('helper_callers', {}) and all(c in _have for c in T['helper_callers'][x]):
+            plain |= set(T['helper_callers'][x])
+            _gone.remove(x)
     ctx.require(not _gone, 'listed plain accumulator writers vanished (inlined into their callers?): %s' % _gone)
     for op in T['alm_saturating'] + T['alm_plain'] + T['alm_no_acc'] + T['alm_flags_only']:
         ctx.inst(A2)
@@ -145,7 +151,7 @@ def run(ctx):
         n_w += 1
         ctx.inst(A2)
         ctx.touch(f)
-        if kinds - {'SatAndSetAccAndFlag'} and f['name'] not in T['plain_writers']:
+        if kinds - {'SatAndSetAccAndFlag'} and f['name'] not in plain:
             ctx.report(A2, f, f['body'], '%s/%d' % (f['name'], len(f['params'])),
                        'accumulator written through %s by a function that is not a listed bitwise / exchange form '
                        '(arithmetic results must go through SatAndSetAccAndFlag)' % sorted(kinds - {'SatAndSetAccAndFlag'}))
